@@ -58,6 +58,7 @@ var c11Scens = []scen{
 	{"refusals of a kind overlap: short||short", nil, [][]string{{"ocra-refused-short-2-of-8"}, {"ocra-refused-short-7-of-10"}}, [2]int{2, 3}, false},
 	{"refusals of a kind overlap: long||long||counter", nil, [][]string{{"ocra-refused-long-200"}, {"ocra-refused-long-129"}, {"ocra-refused-counter-3", "ocra-refused-counter-9"}}, [2]int{1, 2}, false},
 	{"refusals of a kind overlap: counter||counter", []string{"ocra-short"}, [][]string{{"ocra-refused-counter-3"}, {"ocra-refused-counter-9"}}, [2]int{2, 3}, false},
+	{"wide hit then narrow miss: totp||totp||hotp", []string{"totp-validate-hit(+3)-skew3"}, [][]string{{"totp-validate-miss(+3)-skew1", "totp-validate-hit(-2)-skew3"}, {"totp-validate-miss(-2)-skew1"}, {"hotp-validate-hit(+3)-skew3", "hotp-validate-miss(+3)-skew1"}}, [2]int{1, 2}, false},
 	{"helpers refused||short||a", nil, [][]string{{"helpers-refused", "helpers-short"}, {"helpers-short", "helpers-refused"}, {"helpers-a"}}, [2]int{1, 2}, false},
 	{"helpers||helpers||random", nil, [][]string{{"helpers-a"}, {"helpers-b"}, {"random-secret-2", "random-secret-0"}}, [2]int{1, 2}, false},
 	{"ocra 1||2", []string{"ocra-short"}, [][]string{{"ocra-short"}, {"ocra-long", "ocra-validate-hit"}}, [2]int{1, 2}, false},
